@@ -319,7 +319,7 @@ class Check:
     # -- verdict ------------------------------------------------------------------------------
     def finish(self) -> "None":
         known, _fixed = self._known()
-        replay_dir = VERIF / "replay" / self.pid
+        replay_dir = Path(os.environ.get("VERIF_REPLAY_DIR") or (VERIF / "replay")) / self.pid
         replay_dir.mkdir(parents=True, exist_ok=True)
         for old in replay_dir.glob("*.json"):
             old.unlink()
